@@ -40,7 +40,10 @@ class Model:
   def run(self, lines):
     if not lines:
       return []
-    pr = subprocess.run([self.exe], input="\n".join(lines) + "\n", capture_output=True, text=True)
+    try:
+      pr = subprocess.run([self.exe], input="\n".join(lines) + "\n", capture_output=True, text=True, timeout=2400)
+    except subprocess.TimeoutExpired:
+      raise common.BuildError("model driver did not finish %d cases in 2400 s" % len(lines))
     if pr.returncode != 0:
       raise common.BuildError("model driver failed: " + pr.stderr[-1500:])
     out = pr.stdout.split("\n")
@@ -52,13 +55,14 @@ class Model:
 
 
 def parse_model(line):
-  """-> (wf, anext_ok, plain, err or None, parts dict)"""
+  """-> (wf, anext_ok, plain, err or None, parts dict); parts["simple"] = merge_simpleb"""
   flags, rest = line.split(" ", 1)
   wf, an, pl = flags[1] == "1", flags[2] == "1", flags[3] == "1"
+  simple = flags[4] == "1"
   if rest.startswith("E"):
-    return wf, an, pl, rest, {}
+    return wf, an, pl, rest, {"simple": simple}
   parts = rest.split(" |")
-  d = {}
+  d = {"simple": simple}
   for p in parts:
     d[p[0]] = p
   return wf, an, pl, None, d
@@ -408,6 +412,10 @@ def compare_object(ob_real, model_line, ops_line):
   if err is not None:
     return ["model " + err + " but the real compute_order returned"]
   b, e, o, p, ft = ob_real
+  # edges: only those with an endpoint among the final blocks are observable on the real objects
+  final = {x.split(":")[0] for x in d.get("B", "B")[1:].split(";")} if d.get("B", "B") != "B" else set()
+  if "E" in d:
+    d["E"] = "E" + ",".join(x for x in d["E"][1:].split(",") if x and (x.split("-")[0] in final or x.split("-")[1] in final))
   for key, real in (("B", b), ("E", e), ("O", o), ("P", p)):
     if d.get(key) != real:
       diffs.append("%s: model %s / real %s" % (key, (d.get(key) or "")[:300], real[:300]))
@@ -420,6 +428,12 @@ def compare_object(ob_real, model_line, ops_line):
 
 def run(res):
   thorough = res.tier == "thorough"
+  phase = {}
+  t_phase = [time.time()]
+
+  def mark(name):
+    phase[name] = round(time.time() - t_phase[0], 1)
+    t_phase[0] = time.time()
   res.rule = ("code objects (module, functions, lambdas, comprehensions, class bodies, generators, coroutines, async "
               "generators; recursively) of: corpus reproducers, generated programs (c16_gen: nested if/while/for/"
               "try/except*/finally/with/match/async for/async with/await/yield from/comprehensions/lambdas), and "
@@ -445,9 +459,11 @@ def run(res):
     res.obligation("translator:opcodes.py->Generated/C16_OpcodeFlags.v", False, "fail-closed: %s" % e)
     return "proof"
   res.extra["generated_files"] = ["coq/Generated/C16_OpcodeFlags.v"]
+  mark("translate")
   c16_impl.set_class_ids(table["ids"])
   # ---- 2. Coq --------------------------------------------------------------------------------------
   coq_ok = common.coq_obligations(res, "C16")
+  mark("coq")
   common.bootstrap_pytype()
   bad = c16_flags.cross_check(table)
   res.obligation("translator:cross-check-with-imported-module", not bad, "; ".join(bad[:8]))
@@ -461,6 +477,7 @@ def run(res):
                        "harness/props/c16_flags.py (translator), c16_impl.py (observation hooks, abstraction, oracle)",
                        "CPython 3.12.1 compile() + pycnite (produce the inputs)"]
   model = Model(exe) if exe else None
+  mark("extract+bootstrap")
   hooks = c16_impl.install_hooks()
   from pytype.pyc import opcodes  # pylint: disable=import-outside-toplevel
   warnings.simplefilter("ignore")
@@ -473,7 +490,7 @@ def run(res):
     d = json.load(open(os.path.join(cdir, f)))
     if "source" in d:
       sources.append(("corpus:" + f, d["source"], None))
-  n_gen = 1500 if thorough else 110
+  n_gen = 1200 if thorough else 80
   for i in range(n_gen):
     sources.append(("gen%d" % i, c16_gen.program(common.rng(res.seed, "c16gen", i)), None))
   files = stdlib_files()
@@ -512,8 +529,14 @@ def run(res):
     t_model += time.time() - t0
     for k, it in enumerate(batch):
       mo, mm = out[2 * k], out[2 * k + 1]
-      wf, an, pl, err, _ = parse_model(mo)
+      wf, an, pl, err, md = parse_model(mo)
       stats["plain" if pl else "send/async-surgery"] += 1
+      if not pl:
+        stats["surgery:merge_simple" if md["simple"] else "surgery:merge_not_simple"] += 1
+      if md["simple"] and wf and it["dup"]:
+        # partition_partial says this cannot happen when the model corresponds
+        res.obligation("monitor:partition_partial:" + it["where"], False,
+                       "merge_simpleb holds but the real blocks contain an instruction twice")
       if not wf:
         n_wf_bad += 1
         if n_wf_bad <= 3:
@@ -577,16 +600,19 @@ def run(res):
                     "order": [b.id for b in ob.order]})
       b, e, o = c16_impl.real_result(ob.blocks, ob.order, ob.ops, hooks["cfg_utils"])
       real = (b, e, o, c16_impl.real_preds(ob.blocks, hooks["cfg_utils"]), c16_impl.final_targets(ob.ops))
+      has_dup = False
       for v in c16_impl.oracle(ob.ops, ob.blocks, ob.order, opcodes):
         fp = fingerprint(v)
+        has_dup = has_dup or v[0] == "instruction-in-several-blocks"
         stats["oracle:" + fp] += 1
         if fp not in viol_seen:
           viol_seen[fp] = (label, path, src, (ob.qualname, ob.firstlineno), v)
       batch.append({"where": where, "n_ops": ob.n_ops, "ops_line": ob.ops_line, "items_line": ob.items_line,
-                    "real": real, "real_ops_line": ob.real_ops_line})
+                    "real": real, "real_ops_line": ob.real_ops_line, "dup": has_dup})
     if len(batch) >= 4000:
       flush(batch)
   flush(batch)
+  mark("sources(impl+model+oracle)")
 
   # ---- 4. synthetic opcode lists / offset tables ---------------------------------------------------
   n_syn = 30000 if thorough else 4000
@@ -629,6 +655,7 @@ def run(res):
           res.obligation("correspondence:synthetic-opcode-table", False,
                          "%s :: model %s / real %s" % (inp[:400], mo[:300], (exc or real_line)[:300]))
   c16_impl.uninstall_hooks()
+  mark("synthetic")
 
   if model is not None:
     res.obligation("correspondence:model-vs-process_code", not mism,
@@ -666,6 +693,8 @@ def run(res):
   res.extra["synthetic"] = dict(syn_stats)
   res.extra["time_impl_s"] = round(t_impl, 1)
   res.extra["time_model_s"] = round(t_model, 1)
+  mark("shrink+report")
+  res.extra["phase_s"] = phase
   if thorough:
     ok, out = common_coqchk("C16")
     res.obligation("coqchk", ok, out[-1500:])
@@ -702,3 +731,8 @@ def replay(res, path):
     if any(fingerprint(v) == fp for v in vs):
       still = 1
   return still
+
+
+def generate():
+  """Called by harness/setup.py before the Coq build (coq/Generated is not committed)."""
+  c16_flags.regenerate()
